@@ -31,15 +31,20 @@ NAME = {torch.float32: "float32", torch.float64: "float64"}
 # observation: snapshots of instrument buffers and of caller tensors
 # ----------------------------------------------------------------------------
 
+def autograd_state(t):
+    """(requires_grad, is_leaf, has grad_fn) - part of the observable state of a tensor."""
+    return (bool(t.requires_grad), bool(t.is_leaf), t.grad_fn is not None)
+
+
 def snap_prims(prims):
-    """{(i, name): (values, dtype, shape, data_ptr)} via market.snapshot, plus the autograd
-    flag and the in-place version counter of each buffer (recorded, not compared)."""
+    """{(i, name): (values, dtype, shape, data_ptr)} via market.snapshot, plus the autograd state
+    (compared: a query must not change it) and the in-place version counter (recorded) of each buffer."""
     data, meta = {}, {}
     for i, p in enumerate(prims):
         for (_, name), v in market.snapshot(p).items():
             data[(i, name)] = v
         for name, b in p.named_buffers():
-            meta[(i, name)] = (bool(b.requires_grad), int(b._version))
+            meta[(i, name)] = (autograd_state(b), int(b._version))
     return data, meta
 
 
@@ -49,15 +54,34 @@ def diff_prims(a, b):
 
 
 def flag_changes(a, b):
-    """Buffers whose requires_grad flag flipped / that were written in place with equal values."""
+    """([(buffer key, autograd state before, after)], [buffers written in place with equal values])."""
     grad, version = [], []
     for k in a[1]:
         if k in b[1]:
             if a[1][k][0] != b[1][k][0]:
-                grad.append(k)
+                grad.append((k, a[1][k][0], b[1][k][0]))
             if a[1][k][1] != b[1][k][1] and a[0][k][3] == b[0][k][3]:
                 version.append(k)
     return grad, version
+
+
+def dirty_autograd(snap):
+    """Buffers that are not plain data (require grad / carry a graph): [(key, state)]."""
+    return [(k, v[0]) for k, v in sorted(snap[1].items()) if v[0] != (False, True, False)]
+
+
+def snap_module_buffers(module):
+    """Bitwise snapshot of a module's buffers (a hedger's prev_output) incl. identity."""
+    if module is None:
+        return None
+    return {n: (b.detach().clone(), b.data_ptr(), autograd_state(b)) for n, b in module.named_buffers()}
+
+
+def same_module_buffers(a, b):
+    if a is None or b is None:
+        return a is None and b is None
+    return sorted(a) == sorted(b) and all(
+        same_tensor(a[n][0], b[n][0]) and a[n][1] == b[n][1] and a[n][2] == b[n][2] for n in a)
 
 
 class Caller:
@@ -86,11 +110,11 @@ class Caller:
         return t
 
     def snap(self):
-        return {n: (base.detach().clone(), base.dtype, tuple(t.shape), t.data_ptr(), bool(t.requires_grad),
-                    int(base._version)) for n, (t, base) in self.t.items()}
+        return {n: (base.detach().clone(), base.dtype, tuple(t.shape), t.data_ptr(),
+                    (autograd_state(t), autograd_state(base)), int(base._version)) for n, (t, base) in self.t.items()}
 
     def diff(self, a):
-        """(mutated [(name, kind)], names whose requires_grad flag was switched on)."""
+        """(mutated [(name, kind)], [(name, autograd state before, after)] where it changed)."""
         bad, flags = [], []
         for n, (t, base) in self.t.items():
             v, d, s, p, rg, _ = a[n]
@@ -102,8 +126,8 @@ class Caller:
                 bad.append((n, "values"))
             elif t.data_ptr() != p:
                 bad.append((n, "storage"))
-            if bool(t.requires_grad) != rg:
-                flags.append(n)
+            if (autograd_state(t), autograd_state(base)) != rg:
+                flags.append((n, rg[0], autograd_state(t)))
         return bad, flags
 
 
@@ -279,9 +303,11 @@ def generic_linear(n_in, n_out, seed, dtype, tag=0):
 # the history system: one hedger, three derivatives
 # ----------------------------------------------------------------------------
 
-VARIANTS = ("prev", "mlp", "logfeat", "modout", "ww")     # simplest first: first counterexample per signature is stored
+VARIANTS = ("prev", "mlp", "logfeat", "modout", "ww", "wwpre")     # simplest first: first counterexample per signature is stored
 N_PATHS = (2, 3)
+LISTED_HEDGE_OF = 2    # index of the derivative that is hedged with a listed option instead of its underlier
 #: (primary kind, derivative kind, declared dtype, number of time steps)
+H_ALPHABET = [1.28, 1.3125, 1.33]   # around the strike 1.3: Black-Scholes gamma does not underflow, gradients are finite
 H_DT = 1 / 250     # not dyadic: float32 and float64 renderings of times differ, a stale dtype is visible
 DERIVS = (("brownian", "european", "float32", 3),
           ("heston", "lookback", "float64", 4),
@@ -301,9 +327,9 @@ def script_for(kind, T):
         assert steps == T, (steps, T)
         key = (kind, T, n_paths)
         if key not in _SCRIPTS:
-            spot = all_paths(STOCK_ALPHABET, T)                       # float64, cast by register_buffer
+            spot = all_paths(H_ALPHABET, T)                           # float64, cast by register_buffer
             rows = [(5 + 7 * i) % spot.size(0) for i in range(n_paths)]  # moving, distinct paths
-            out = {"spot": spot[rows] + 0.015625 * n_paths}
+            out = {"spot": spot[rows] + 0.00390625 * n_paths}
             if sec:
                 a = torch.tensor(SECOND[sec], dtype=torch.float64)
                 idx = (torch.arange(n_paths).unsqueeze(1) + torch.arange(T).unsqueeze(0)) % 2
@@ -318,11 +344,12 @@ class HWorld:
     """Real objects of one history.  ``last`` is the result of the last operation."""
 
     def __init__(self, variant, seed):
+        import pfhedge.instruments as I
         self.variant = variant
         self.seed = seed
         self.prims, self.derivs, self.sims = [], [], []
         for kind, dkind, dt, T in DERIVS:
-            p = market.primary(kind, dtype=DT[dt], cost=1 / 64, dt=H_DT)
+            p = market.primary(kind, dtype=DT[dt], cost=2.0 ** -20, dt=H_DT)   # small: a narrow Whalley-Wilmott band
             kw = {"strike": 1.3}
             d = market.derivative(dkind, p, T=T, **kw)
             if variant == "logfeat":
@@ -330,7 +357,16 @@ class HWorld:
             self.sims.append(market.ScriptedSimulate(p, [script_for(kind, T)], cycle=True))
             self.prims.append(p)
             self.derivs.append(d)
+        # derivative #2 is hedged with a *listed* option on the same stock (Black-Scholes pricer of the Hedger
+        # docstring): its price series is a function of the stock's current series, whichever derivative the
+        # stock was re-simulated through
+        p2 = self.prims[LISTED_HEDGE_OF]
+        self.listed = I.EuropeanOption(p2, strike=1.29, maturity=(DERIVS[LISTED_HEDGE_OF][3] - 1) * H_DT)
+        self.listed.list(bs_pricer, cost=1 / 128)
+        self.hedges = [None] * len(DERIVS)
+        self.hedges[LISTED_HEDGE_OF] = [self.listed]
         self.hedger, self.aux = make_hedger(variant, self.derivs, seed)
+        self.copy, self.copy_aux, self.copy_access = None, [], None     # copy.deepcopy of the hedger (operation "copy")
         self.last = None
         self.trace = []
         self.access = None      # last evaluation of the hedger's features: (derivative, time step | 'all')
@@ -340,6 +376,11 @@ class HWorld:
     # -- abstract state ---------------------------------------------------------
     def param_dtype(self):
         for p in self.hedger.parameters():
+            return p.dtype
+        return None
+
+    def copy_param_dtype(self):
+        for p in self.copy.parameters():
             return p.dtype
         return None
 
@@ -372,14 +413,29 @@ class HWorld:
         hidden = (bool(self.hedger.training), _names(self.hedger), _names(self.hedger.model),
                   tuple(_names(d) for d in self.derivs), tuple(_names(p) for p in self.prims),
                   self.access if self.aux else None)
+        cp = None
+        if self.copy is not None:
+            cpo = getattr(self.copy, "prev_output", None)
+            cpd = self.copy_param_dtype()
+            cp = (NAME.get(cpd, str(cpd)), None if cpo is None else (tuple(cpo.shape), NAME.get(cpo.dtype, str(cpo.dtype))),
+                  bool(self.copy.training), _names(self.copy), self.copy_access if self.copy_aux else None)
         return (tuple(ds), NAME.get(pd, str(pd)),
-                None if po is None else (tuple(po.shape), NAME.get(po.dtype, str(po.dtype))), bound, hidden)
+                None if po is None else (tuple(po.shape), NAME.get(po.dtype, str(po.dtype))), bound, hidden, cp)
 
     # -- parameters -------------------------------------------------------------
     def state(self):
         """Copies of all parameters (hedger module tree + ModuleOutput inner modules)."""
         out = {"hedger": {k: v.detach().clone() for k, v in self.hedger.state_dict().items()}}
         for j, m in enumerate(self.aux):
+            out[f"aux{j}"] = {k: v.detach().clone() for k, v in m.state_dict().items()}
+        return out
+
+    def copy_state(self):
+        """Parameters of the deep copy of the hedger, in the layout of state()."""
+        if self.copy is None:
+            return None
+        out = {"hedger": {k: v.detach().clone() for k, v in self.copy.state_dict().items()}}
+        for j, m in enumerate(self.copy_aux):
             out[f"aux{j}"] = {k: v.detach().clone() for k, v in m.state_dict().items()}
         return out
 
@@ -411,17 +467,27 @@ class HWorld:
         if self.failed:
             return False
         kind = op[0]
-        if kind in ("sim", "dto"):
+        if kind in ("sim", "dto", "eval", "train"):
             return True
         pd = self.param_dtype()
         if kind == "hto":
             return pd is not None
+        if kind == "copy":
+            # torch cannot deep-copy a module holding a non-leaf buffer: prev_output must be plain data, i.e. the
+            # last evaluation ran without grad (compute_hedge/pl under no_grad, price, the validation pass of fit)
+            po = getattr(self.hedger, "prev_output", None)
+            return po is None or autograd_state(po) == (False, True, False)
         i = op[1]
+        if kind == "chedge":
+            if self.copy is None or not self.simulated(i):
+                return False
+            cpd = self.copy_param_dtype()
+            return cpd is None or cpd == self.data_dtype(i)
         if kind in ("hedge", "pl", "input"):
             if not self.simulated(i):
                 return False
             if kind == "input":
-                if self.variant in ("prev", "ww"):
+                if self.variant in ("prev", "ww", "wwpre"):
                     return False    # get_input binds features without a hedger: no prev_hedge there
                 if not self.aux:
                     return True     # no module is evaluated: the hedger's parameter dtype is irrelevant
@@ -439,7 +505,20 @@ class HWorld:
         h = self.hedger
         if observe:
             self.pre, self.pre_state = snap_prims(self.prims), self.state()
-        if kind == "sim":
+            self.pre_copy_state = self.copy_state()
+            self.pre_hb = (snap_module_buffers(self.hedger), snap_module_buffers(self.copy))
+        if kind == "copy":
+            import copy as _copy
+            from pfhedge.features import ModuleOutput
+            self.copy = _copy.deepcopy(h)
+            self.copy_aux = [f for f in self.copy.inputs.features if isinstance(f, ModuleOutput)]
+            self.copy_access = None
+            out = None
+        elif kind == "chedge":
+            with torch.no_grad():
+                out = self.copy.compute_hedge(self.derivs[op[1]], hedge=self.hedges[op[1]])
+            self.copy_access = (op[1], None)
+        elif kind == "sim":
             self.derivs[op[1]].simulate(n_paths=op[2])
             out = None
         elif kind == "dto":
@@ -450,26 +529,35 @@ class HWorld:
             out = None
         elif kind == "hedge":
             with torch.no_grad():
-                out = h.compute_hedge(self.derivs[op[1]])
+                out = h.compute_hedge(self.derivs[op[1]], hedge=self.hedges[op[1]])
         elif kind == "pl":
             with torch.no_grad():
-                out = h.compute_pl(self.derivs[op[1]])
+                out = h.compute_pl(self.derivs[op[1]], hedge=self.hedges[op[1]])
         elif kind == "input":
             out = h.get_input(self.derivs[op[1]], op[2])
         elif kind == "loss":
-            out = h.compute_loss(self.derivs[op[1]], n_paths=op[2]).detach()
+            # value and gradient: d loss / d parameters runs through the whole hedge sequence (for prev_hedge models
+            # through hedge(t) -> prev_hedge -> hedge(t+1)), so it observes the autograd side of the hedger's state
+            loss = h.compute_loss(self.derivs[op[1]], hedge=self.hedges[op[1]], n_paths=op[2])
+            params = list(h.parameters()) + [q for m in self.aux for q in m.parameters()]
+            grads = torch.autograd.grad(loss, params, allow_unused=True) if params and loss.requires_grad else ()
+            out = {"loss": loss.detach(), "grad": [None if g is None else g.detach() for g in grads]}
+        elif kind in ("eval", "train"):
+            getattr(h, kind)()
+            out = None
         elif kind == "price":
-            out = h.price(self.derivs[op[1]], n_paths=op[2])
+            out = h.price(self.derivs[op[1]], hedge=self.hedges[op[1]], n_paths=op[2])
         elif kind == "fit":
-            hist = h.fit(self.derivs[op[1]], n_epochs=1, n_paths=op[2], verbose=False)
+            hist = h.fit(self.derivs[op[1]], hedge=self.hedges[op[1]], n_epochs=1, n_paths=op[2], verbose=False)
             out = {"history": list(hist), "parameters": self.state()}
         else:
             raise KeyError(kind)
         if kind == "input":
             self.access = (op[1], op[2])
         elif kind in ("hedge", "pl", "loss", "price", "fit"):
-            self.access = (op[1], "all")
+            self.access = (op[1], None)      # a state-independent hedger evaluates get(None)
         self.post = snap_prims(self.prims) if observe else None
+        self.post_hb = (snap_module_buffers(self.hedger), snap_module_buffers(self.copy)) if observe else None
         self.last = out
         self.trace.append(op)
         return out
@@ -494,6 +582,20 @@ class _Donor:
 
     def state(self):
         return self._st
+
+
+class PreScaledWW(torch.nn.Module):
+    """Whalley-Wilmott no-transaction band behind a trainable pre-layer (one scale per market input; the
+    prev_hedge column is passed through): a prev_hedge model whose gradient runs through the clamp."""
+
+    def __init__(self, ww):
+        super().__init__()
+        self.ww = ww
+        self.scale = torch.nn.Parameter(torch.tensor([1.0, 1.0625, 0.9375]))
+
+    def forward(self, input):
+        scaled = input[..., :-1] * self.scale.to(input.dtype)
+        return self.ww(torch.cat([scaled, input[..., -1:]], dim=-1))
 
 
 def make_hedger(variant, derivs, seed):
@@ -526,8 +628,12 @@ def make_hedger(variant, derivs, seed):
         model = generic_linear(5, 1, seed, f32, tag=4)
         crit = EntropicRiskMeasure()
     elif variant == "ww":
-        model = WhalleyWilmott(derivs[0])      # holds derivs[0]: must stay bound to the live one
+        model = WhalleyWilmott(derivs[0])      # holds derivs[0]: must stay bound to the live one; no parameters
         inputs = model.inputs()
+        crit = EntropicRiskMeasure()
+    elif variant == "wwpre":
+        model = PreScaledWW(WhalleyWilmott(derivs[0]))      # the same behind a trainable pre-layer (gradients)
+        inputs = model.ww.inputs()
         crit = EntropicRiskMeasure()
     else:
         raise KeyError(variant)
@@ -539,14 +645,24 @@ def operations(variant, tier="thorough"):
     derivatives, both path counts, both cast directions, get_input at several time steps of one derivative so
     that non-monotone access orders arise as histories); the thorough tier the full product."""
     nd = len(DERIVS)
+    if tier == "quick" and variant == "wwpre":
+        # the trainable Whalley-Wilmott hedger is there for the gradient observations: operations that change
+        # mode, parameters, dtype and data around compute_loss (value + gradient)
+        return [("hedge", 0), ("loss", 0, 2), ("loss", 1, 3), ("sim", 0, 3), ("hto", "float64"),
+                ("fit", 0, 2), ("eval",), ("train",)]
     if tier == "quick":
+        # deep copies of the hedger: in the quick tier for the Linear+prev_hedge hedger, in the thorough tier for all
         return [("hedge", 0), ("hedge", 1), ("hedge", 2), ("pl", 0), ("pl", 1),
-                ("sim", 0, 2), ("sim", 0, 3), ("sim", 1, 3), ("sim", 2, 2),
+                ("sim", 0, 2), ("sim", 0, 3), ("sim", 1, 3), ("sim", 2, 2), ("sim", 2, 3),
                 ("hto", "float64"), ("hto", "float32"),
-                ("dto", 0, "float64"), ("dto", 1, "float32"), ("dto", 2, "float64"), ("dto", 0, "float32"),
+                ("dto", 0, "float64"), ("dto", 1, "float32"), ("dto", 2, "float64"),
                 ("loss", 0, 2), ("loss", 1, 3), ("loss", 2, 2), ("price", 0, 3),
                 ("fit", 0, 2), ("fit", 1, 3),
-                ("input", 0, None), ("input", 0, 2), ("input", 0, 1), ("input", 2, 1)]
+                ("input", 0, None), ("input", 2, 1),
+                # non-monotone get_input orders where bound features survive between calls (ModuleOutput binds in place)
+                ] + ([("input", 0, 2), ("input", 0, 1)] if variant == "modout" else []
+                     ) + ([("eval",)] if variant == "prev" else []                  # gradient path through prev_hedge
+                          ) + ([("copy",), ("chedge", 0)] if variant == "prev" else [])
     ops = []
     for i in range(nd):
         ops.append(("hedge", i))
@@ -569,6 +685,9 @@ def operations(variant, tier="thorough"):
     for i in range(nd):
         for t in (None, 0, 1, DERIVS[i][3] - 1):      # non-monotone access orders arise as histories
             ops.append(("input", i, t))
+    ops += [("eval",), ("train",), ("copy",)]
+    for i in range(nd):
+        ops.append(("chedge", i))
     return ops
 
 
@@ -586,6 +705,7 @@ def safe_apply(w, op, observe=False):
         if blame(e) is None:
             raise
         w.post = snap_prims(w.prims) if observe else None
+        w.post_hb = (snap_module_buffers(w.hedger), snap_module_buffers(w.copy)) if observe else None
         w.last = Raised(f"{type(e).__name__}: {str(e)[:200]}")
         w.failed = True
         return w.last
@@ -621,6 +741,7 @@ def may_change(op):
     return op[1] if op[0] in ("sim", "dto", "loss", "price", "fit") else None
 
 
-ENTRY = {"sim": "BaseDerivative.simulate", "dto": "BaseDerivative.to", "hto": "Hedger.to",
+ENTRY = {"eval": "Hedger.eval", "train": "Hedger.train", "copy": "copy.deepcopy(Hedger)", "chedge": "Hedger.compute_hedge",
+         "sim": "BaseDerivative.simulate", "dto": "BaseDerivative.to", "hto": "Hedger.to",
          "hedge": "Hedger.compute_hedge", "pl": "Hedger.compute_pl", "input": "Hedger.get_input",
          "loss": "Hedger.compute_loss", "price": "Hedger.price", "fit": "Hedger.fit"}
